@@ -118,6 +118,31 @@ static void switch_to(int self, int target) {
   if (cur != self) fmc_fail("context: context %d resumed while context %d was the switch target", self, cur);
 }
 
+// -Ddeep=D: a created context first descends D frames of ~400 bytes (with split stacks: into
+// further stack segments), switches away at that depth, and when it is resumed descends again
+// before unwinding; every frame checks its own contents afterwards. A context must find its
+// whole stack - not just the frame it switched from - exactly as it left it.
+static int deep;
+static __attribute__((noinline)) void probe(int depth) {
+  volatile unsigned char pad[800];
+  for (int i = 0; i < 800; i++) pad[i] = (unsigned char)(depth * 13 + i);
+  if (depth > 0) probe(depth - 1);
+  for (int i = 0; i < 800; i++)
+    if (pad[i] != (unsigned char)(depth * 13 + i)) fmc_fail("context: stack contents of a frame changed while deeper frames were active");
+}
+static __attribute__((noinline)) void deep_switch(int self, int target, int depth) {
+  volatile unsigned char pad[800];
+  for (int i = 0; i < 800; i++) pad[i] = (unsigned char)(self * 31 + depth * 7 + i);
+  if (depth > 0) deep_switch(self, target, depth - 1);
+  else {
+    switch_to(self, target);
+    probe(deep);
+  }
+  for (int i = 0; i < 800; i++)
+    if (pad[i] != (unsigned char)(self * 31 + depth * 7 + i))
+      fmc_fail("context: context %d found a frame %d levels above its switch point overwritten after being resumed", self, depth);
+}
+
 // runs in whichever context currently has the cpu
 static void run_steps(int self) {
   for (;;) {
@@ -134,7 +159,8 @@ static void run_steps(int self) {
     }
     if (s == self) continue;
     if (s != 0) ensure(s);
-    switch_to(self, s);
+    if (deep && self != 0) deep_switch(self, s, deep);
+    else switch_to(self, s);
   }
 }
 
@@ -189,6 +215,7 @@ static void* other_thread(void* p) {
 int harness_main(void) {
   stack_size = (size_t)fmc_param("stack", 16384);
   int len = fmc_param("len", 6);
+  deep = fmc_param("deep", 0);
   if (fmc_param("threads", 1) == 2) {
     pthread_t th;
     pthread_create(&th, 0, other_thread, 0);
